@@ -217,7 +217,9 @@ def run(ctx):
     ctx.assume("numpy repeat/reshape/ravel semantics as modelled in sa/xarray.py; scipy's coo->csr constructor sums duplicates and sort_indices() is canonical")
     layout_rules(ctx)
     csr_rules(ctx)
-    slot_rules(ctx)
+    # R3.4 (slot order read off the SYNTAX of Assembly, of the producers' tuples and of the callers' local names) is retired:
+    # it fired on a behaviour-preserving rewrite of Assembly as a loop over a slot table (refactored/C03-R5).  The clause is
+    # decided by interpretation: R3.6 (Assembly on recording stubs), R2.10 (every producer) and the end-to-end R3.E1 / R4.E1.
     routing_rule(ctx)
     # the direct sparse assembly of user forms is the same scatter-add (R13.2)
     from . import c13
